@@ -109,7 +109,7 @@ def keyval(k, typ):
         return datetime.date(2020, 1, o)
     if typ == 'decimal':
         return decimal.Decimal(o)
-    if typ == 'callable':
+    if typ in ('callable', 'callnone'):
         return lambda o=o: o * 7
     raise ValueError(typ)
 
@@ -123,6 +123,8 @@ def types_for(b):
     if 'user' in fns:
         return ['str', 'int']
     ts = ['str', 'int', 'float', 'date', 'decimal', 'callable']
+    if any(k['p'] == 'none' for e in b['l'] for k in e['k']):
+        ts.append('callnone')
     used = {k['o'] for e in b['l'] for k in e['k'] if k['p'] == 'val'}
     if used <= {1, 2} and len(used) == 2 or used <= {2, 3} and False:
         ts.append('bool')
@@ -135,7 +137,7 @@ def build(b, typ, mapping, isort_pairs):
     for e in b['l']:
         if isort:
             # sort by the element: plain values, or (key, object) pairs sorted by their key
-            v = keyval(e['it'], 'int' if typ in ('callable', 'bool') else typ)
+            v = keyval(e['it'], 'int' if typ in ('callable', 'callnone', 'bool') else typ)
             if isort_pairs:
                 o = El()
                 o.id = e['id']
@@ -146,12 +148,13 @@ def build(b, typ, mapping, isort_pairs):
         d = {'id': e['id']}
         for j, k in enumerate(e['k'], 1):
             if k['p'] == 'none':
-                d['k%d' % j] = None
+                # (callnone: the attribute is a method like everybody else's, and what it returns is None)
+                d['k%d' % j] = (lambda: None) if typ == 'callnone' else None
             elif k['p'] == 'val':
                 d['k%d' % j] = keyval(k, typ)
         if mapping == 'dd':
             # a mapping with a __missing__ hook: looking a key up must not create it or invent a value
-            dd = collections.defaultdict(lambda typ=typ: keyval(ATOMS[0], 'int' if typ == 'callable' else typ))
+            dd = collections.defaultdict(lambda typ=typ: keyval(ATOMS[0], 'int' if typ in ('callable', 'callnone') else typ))
             dd.update(d)
             seq.append(dd)
         elif mapping:
